@@ -76,6 +76,12 @@ CLAIMED.update({
   note="Index normalisation and replies of LRANGE/LINDEX/LTRIM/LSET/LPOS/LREM/LMOVE/LMPOP are not proved (only covered by the bounded harness); the ghost instrumentation is bound to statement texts of the primitives, so a restructured helper makes its contract unbound (reported UNDECIDED, then the harness looks for a witness). 'Stored lists are well formed and smaller than 2^56 nodes' is a stated (free) assumption at the accessor.",
   design="DESIGN.md §6 C03"),
 })
+CLAIMED.update({
+ "C04": dict(
+  text="Deductive proof of the real dictionary under the hash (and set) commands against an abstract view: every redisDict carries ghost fields vdom/vval (present keys, their values) tied to the bucket array by a representation invariant (an occupied bucket holds a key whose hash selects that bucket, is in vdom with its value; every key in vdom sits in the bucket its hash selects). get, store, remove, rehash (all 405 admissible pairs of old/new table size, bit-vector reasoning about the reverse-binary bucket index), clone, the iterator step, newRedisDict and pickRandomItems are verified against it for all tables and keys: get returns exactly vdom/vval, store/remove update exactly one binding and change count by exactly the change of vdom, growing and shrinking keep every binding (shrink only when no two occupied buckets would merge), the iterator yields present keys with their values and skips only empty buckets. On top: HINCRBY overflow iff the mathematical sum leaves int64 for every sign combination, HSETNX never changes an existing field (loop invariant over the view) and its NX flag reaches the worker, HDEL removes the named fields and deletes the key when the table becomes empty, HRANDFIELD's negative-count path returns exactly |count| existing fields with their values.",
+  note="Known finding (not repaired): table growth is unbounded on partial SipHash collisions (fixed zero key) - two colliding keys make store ask for 2^32 buckets and panic; see known_findings.txt. The step 'after growing, the new key's bucket is empty' is still undecided (bit-level, symbolic new size). count == |vdom| is an inductive consequence of the proved per-operation deltas, assumed where used. calcSipHash is an uninterpreted function of the key. Reply formatting of the hash handlers, HINCRBYFLOAT, HSCAN (see C17) and pickUniqueRandomItems' distinctness are not under contract.",
+  design="DESIGN.md section 6 C04"),
+})
 NOT_BUILT = {}
 ALL = ["C%02d" % i for i in range(1, 21)]
 
